@@ -256,67 +256,67 @@ pub fn generate(rng: &mut Rng, _tier: Tier) -> Value {
                 // call machinery and must be covered by the recursion and stack limits as well
                 4 => {
                     tags.push("rec-derived-ctor-returns-object".into());
-                    format!("class RB {{}} class RA extends RB {{ constructor(d){{ tick(); if ({stop}) return {{}}; return new RA(d+1); }} }} function bomb(){{ new RA(1); return 1; }}")
+                    format!("class RB {{}} class RA extends RB {{ constructor(d){{ TK++; if ({stop}) return {{}}; return new RA(d+1); }} }} function bomb(){{ new RA(1); return 1; }}")
                 }
                 5 => {
                     tags.push("rec-derived-ctor-super-argument".into());
-                    format!("class RB {{ constructor(x){{ this.x=x; }} }} class RA extends RB {{ constructor(d){{ tick(); super(({stop}) ? 0 : new RA(d+1).x+1); }} }} function bomb(){{ return new RA(1).x; }}")
+                    format!("class RB {{ constructor(x){{ this.x=x; }} }} class RA extends RB {{ constructor(d){{ TK++; super(({stop}) ? 0 : new RA(d+1).x+1); }} }} function bomb(){{ return new RA(1).x; }}")
                 }
                 6 => {
                     tags.push("rec-base-ctor".into());
-                    format!("function RC(d){{ tick(); this.v = ({stop}) ? 0 : new RC(d+1).v+1; }} function bomb(){{ return new RC(1).v; }}")
+                    format!("function RC(d){{ TK++; this.v = ({stop}) ? 0 : new RC(d+1).v+1; }} function bomb(){{ return new RC(1).v; }}")
                 }
                 7 => {
                     tags.push("rec-bound".into());
-                    format!("var rbb; function rb(d){{ tick(); if ({stop}) return 0; return rbb(d+1); }} rbb = rb.bind(null); function bomb(){{ return rbb(1); }}")
+                    format!("var rbb; function rb(d){{ TK++; if ({stop}) return 0; return rbb(d+1); }} rbb = rb.bind(null); function bomb(){{ return rbb(1); }}")
                 }
                 8 => {
                     tags.push("rec-call-apply".into());
-                    format!("function rc(d){{ tick(); if ({stop}) return 0; return d%2 ? rc.call(null, d+1) : rc.apply(null, [d+1]); }} function bomb(){{ return rc(1); }}")
+                    format!("function rc(d){{ TK++; if ({stop}) return 0; return d%2 ? rc.call(null, d+1) : rc.apply(null, [d+1]); }} function bomb(){{ return rc(1); }}")
                 }
                 9 => {
                     tags.push("rec-reflect".into());
-                    format!("function rr(d){{ tick(); if ({stop}) return 0; return d%2 ? Reflect.apply(rr, null, [d+1]) : Reflect.construct(function(){{ this.v = rr(d+1); }}, []).v; }} function bomb(){{ return rr(1); }}")
+                    format!("function rr(d){{ TK++; if ({stop}) return 0; return d%2 ? Reflect.apply(rr, null, [d+1]) : Reflect.construct(function(){{ this.v = rr(d+1); }}, []).v; }} function bomb(){{ return rr(1); }}")
                 }
                 10 => {
                     tags.push("rec-getter".into());
-                    format!("var rgd=0; var rgo = {{ get g(){{ var d=++rgd; tick(); if ({stop}) return 0; return this.g; }} }}; function bomb(){{ rgd=0; return rgo.g; }}")
+                    format!("var rgd=0; var rgo = {{ get g(){{ var d=++rgd; TK++; if ({stop}) return 0; return this.g; }} }}; function bomb(){{ rgd=0; return rgo.g; }}")
                 }
                 11 => {
                     tags.push("rec-proxy-apply".into());
-                    format!("var rpf = new Proxy(function(){{}}, {{ apply(t, th, args){{ var d=args[0]; tick(); if ({stop}) return 0; return rpf(d+1); }} }}); function bomb(){{ return rpf(1); }}")
+                    format!("var rpf = new Proxy(function(){{}}, {{ apply(t, th, args){{ var d=args[0]; TK++; if ({stop}) return 0; return rpf(d+1); }} }}); function bomb(){{ return rpf(1); }}")
                 }
                 12 => {
                     tags.push("rec-tagged-template".into());
-                    format!("function rt(s, d){{ tick(); if ({stop}) return 0; return rt`${{d+1}}`; }} function bomb(){{ return rt`${{1}}`; }}")
+                    format!("function rt(s, d){{ TK++; if ({stop}) return 0; return rt`${{d+1}}`; }} function bomb(){{ return rt`${{1}}`; }}")
                 }
                 13 => {
                     tags.push("rec-arrow-async".into());
-                    format!("var rar = async (d) => {{ tick(); if ({stop}) return 0; return rar(d+1); }}; function bomb(){{ rar(1); return 1; }}")
+                    format!("var rar = async (d) => {{ TK++; if ({stop}) return 0; return rar(d+1); }}; function bomb(){{ rar(1); return 1; }}")
                 }
                 14 => {
                     tags.push("rec-generator-delegate".into());
-                    format!("function* rgen(d){{ tick(); if (!({stop})) yield* rgen(d+1); }} function bomb(){{ return [...rgen(1)].length; }}")
+                    format!("function* rgen(d){{ TK++; if (!({stop})) yield* rgen(d+1); }} function bomb(){{ return [...rgen(1)].length; }}")
                 }
                 15 => {
                     tags.push("rec-class-static-new-target".into());
-                    format!("class RS {{ static make(d){{ tick(); if ({stop}) return 0; return Reflect.construct(RS, [d+1], RS).v; }} constructor(d){{ this.v = RS.make(d); }} }} function bomb(){{ return RS.make(1); }}")
+                    format!("class RS {{ static make(d){{ TK++; if ({stop}) return 0; return Reflect.construct(RS, [d+1], RS).v; }} constructor(d){{ this.v = RS.make(d); }} }} function bomb(){{ return RS.make(1); }}")
                 }
                 0 => {
                     tags.push("rec-plain".into());
-                    format!("function rec(d){{ tick(); if ({stop}) return 0; return 1+rec(d+1); }} function bomb(){{ return rec(1); }}")
+                    format!("function rec(d){{ TK++; if ({stop}) return 0; return 1+rec(d+1); }} function bomb(){{ return rec(1); }}")
                 }
                 1 => {
                     tags.push("rec-try".into());
-                    format!("function rec(d){{ tick(); if ({stop}) return 0; try {{ return 1+rec(d+1); }} catch (e) {{ print('S:rec-caught'); return -1; }} finally {{ if (d==1) print('S:rec-finally'); }} }} function bomb(){{ return rec(1); }}")
+                    format!("function rec(d){{ TK++; if ({stop}) return 0; try {{ return 1+rec(d+1); }} catch (e) {{ print('S:rec-caught'); return -1; }} finally {{ if (d==1) print('S:rec-finally'); }} }} function bomb(){{ return rec(1); }}")
                 }
                 2 => {
                     tags.push("rec-mutual".into());
-                    format!("function ra(d){{ tick(); if ({stop}) return 0; return rb(d+1); }} function rb(d){{ tick(); if ({stop}) return 0; return ra(d+1); }} function bomb(){{ return ra(1); }}")
+                    format!("function ra(d){{ TK++; if ({stop}) return 0; return rb(d+1); }} function rb(d){{ TK++; if ({stop}) return 0; return ra(d+1); }} function bomb(){{ return ra(1); }}")
                 }
                 _ => {
                     tags.push("rec-method".into());
-                    format!("var ro = {{ m(d){{ tick(); if ({stop}) return 0; return this.m(d+1); }} }}; function bomb(){{ return ro.m(1); }}")
+                    format!("var ro = {{ m(d){{ TK++; if ({stop}) return 0; return this.m(d+1); }} }}; function bomb(){{ return ro.m(1); }}")
                 }
             };
             // shapes that go through native re-entry or helper frames use up to three units of
@@ -391,7 +391,7 @@ pub fn generate(rng: &mut Rng, _tier: Tier) -> Value {
         let w3 = wrap(rng, "(function(){ W2 })()", "outer").replace("W2", &w2);
         format!("{w3} print('S:after-all');")
     };
-    let src = format!("{bomb_def}\nprint('start');\n{body}");
+    let src = format!("var TK=0;\n{bomb_def}\nprint('start');\n{body}");
     let budget = if rng.chance(1, 4) { *rng.pick(&[1u32, 2, 3, 7, 64, 256]) } else { 0 };
     let sc = Scenario { src, dim: dim.into(), limit, size, size_lo, band: band.into(), budget, in_job, tags };
     serde_json::to_value(sc).expect("ser")
@@ -443,7 +443,15 @@ fn run_once(sc: &Scenario, limited: bool, rep: &mut RunReport) -> Outcome {
         }
     }
     let trace = host.trace.take();
-    let ticks = host.ticks.get();
+    // recursion bombs count their steps in a global variable: calling the native `tick` at every
+    // level would itself perform the limit check that the call path under test may be missing
+    let tk = ctx
+        .global_object()
+        .get(boa_engine::js_string!("TK"), &mut ctx)
+        .ok()
+        .and_then(|v| v.as_number())
+        .unwrap_or(0.0) as u64;
+    let ticks = host.ticks.get() + tk;
     let mut after = boa_engine::verif::vm_depths(&ctx);
     after.kept_alive = before.kept_alive;
     ctx.set_runtime_limits(RuntimeLimits::default());
